@@ -275,8 +275,12 @@ BOUNDS['C07'] = ('integer samples with events at and next to both limits, 3 chan
                  'gains, seeded standard-curve parameters m in [0.85,1.25], b in [0,7]; comparison is exact (bitwise)')
 
 
+# parts whose inputs lie outside a property's quantifier (kept by their authors for information, not part of the check)
+EXCLUDED_PARTS = {('C01', 'range_above_width'): '$PnR > 2^$PnB is outside C01\'s quantifier (ranges are 2^w, smaller powers of two, or non-powers below 2^w)'}
+
+
 def generators(pid):
-    return GENS.get(pid, [])
+    return [(n, g) for (n, g) in GENS.get(pid, []) if (pid, n) not in EXCLUDED_PARTS]
 
 
 def budget(pid, part, tier):
